@@ -32,7 +32,7 @@ SmallResKinds == { [plain |-> {"GET", "WEBSOCKET"},    sfx |-> {"POST", "OPTIONS
                    [plain |-> {"POST", "LOCK"},        sfx |-> {}] }
 (* every subset of a 6-method universe as the unsuffixed responders (Allow exactness) *)
 MethUniverse == {"GET", "POST", "OPTIONS", "LOCK", "WEBSOCKET", "DELETE"}
-AllResKinds  == { [plain |-> S, sfx |-> T] : S \in SUBSET MethUniverse, T \in {{}, {"GET", "OPTIONS"}, {"LOCK"}} }
+AllResKinds  == { [plain |-> S, sfx |-> T] : S \in SUBSET MethUniverse, T \in {{}, {"GET", "OPTIONS"}} }
 
 MCMethods == {"GET", "POST", "OPTIONS", "LOCK", "HEAD", "WEBSOCKET", "FOO"}
 AllMethods == MethUniverse \cup {"HEAD", "FOO", "PROPFIND"}
